@@ -289,6 +289,12 @@ class Explorer:
                     setattr(new, f, [rb(x, shadow) if isinstance(x, ast.AST) else x for x in v])
             if isinstance(new, (ast.Subscript, ast.Attribute)) and isinstance(getattr(new, "ctx", None), ast.Load):
                 return self._simplify(new)
+            if isinstance(new, ast.JoinedStr):
+                return self._simplify_fstring(new)
+            if isinstance(new, ast.Call):
+                new = self._simplify_call(new)
+                if not isinstance(new, ast.Call):
+                    return new
             if isinstance(new, ast.Call) and isinstance(new.func, ast.Name) and new.func.id == "len" and len(new.args) == 1 and not new.keywords:
                 a = new.args[0]
                 if isinstance(a, (ast.List, ast.Tuple, ast.Set)) and not any(isinstance(x, ast.Starred) for x in a.elts) and not isinstance(a, ast.Set):
@@ -308,10 +314,10 @@ class Explorer:
         a module-level literal tuple, zip(...) / enumerate(...) of those, d.items()/keys()/values()
         of a dict literal"""
 
-        def seq(e):
+        def seq(e, _d=0):
             if isinstance(e, (ast.Tuple, ast.List)) and not any(isinstance(x, ast.Starred) for x in e.elts):
                 return list(e.elts)
-            if isinstance(e, ast.Name):
+            if isinstance(e, ast.Name) and _d < 4:
                 try:
                     hits = self.prog.lookup(fi.module, e.id, fi.variant)
                 except Exception:  # noqa: BLE001
@@ -319,6 +325,15 @@ class Explorer:
                 vals = [h.value for h in hits if getattr(h, "kind", "") == "global" and h.value is not None]
                 if len(vals) == 1 and isinstance(vals[0], (ast.Tuple, ast.List)) and all(isinstance(x, ast.Constant) for x in vals[0].elts):
                     return list(vals[0].elts)
+                if len(vals) == 1 and isinstance(vals[0], (ast.Subscript, ast.Name, ast.BinOp)):
+                    # a module constant derived from another one (OPTIONAL = ATTR_ORDER[2:])
+                    r = seq(vals[0], _d + 1)
+                    if r is not None and all(isinstance(x, ast.Constant) for x in r):
+                        return r
+            if isinstance(e, ast.BinOp) and isinstance(e.op, ast.Add):
+                l, r = seq(e.left, _d + 1), seq(e.right, _d + 1)
+                if l is not None and r is not None:
+                    return l + r
             if isinstance(e, ast.Subscript) and isinstance(e.slice, ast.Slice) and e.slice.step is None:
                 base = seq(e.value)
                 lo, hi = e.slice.lower, e.slice.upper
@@ -331,10 +346,14 @@ class Explorer:
                 if all(p is not None for p in parts):
                     n = min(len(p) for p in parts)
                     return [ast.Tuple(elts=[p[i] for p in parts], ctx=ast.Load()) for i in range(n)]
-            if isinstance(e, ast.Call) and isinstance(e.func, ast.Name) and e.func.id == "enumerate" and len(e.args) == 1 and not e.keywords:
+            if isinstance(e, ast.Call) and isinstance(e.func, ast.Name) and e.func.id == "enumerate" and len(e.args) in (1, 2):
                 base = seq(e.args[0])
-                if base is not None:
-                    return [ast.Tuple(elts=[ast.Constant(value=i), x], ctx=ast.Load()) for i, x in enumerate(base)]
+                start = e.args[1] if len(e.args) == 2 else next((k.value for k in e.keywords if k.arg == "start"), ast.Constant(value=0))
+                if isinstance(start, ast.Call) and isinstance(start.func, ast.Name) and start.func.id == "len" and len(start.args) == 1:
+                    inner = seq(start.args[0])
+                    start = ast.Constant(value=len(inner)) if inner is not None else start
+                if base is not None and isinstance(start, ast.Constant) and isinstance(start.value, int) and all(k.arg == "start" for k in e.keywords):
+                    return [ast.Tuple(elts=[ast.Constant(value=i), x], ctx=ast.Load()) for i, x in enumerate(base, start.value)]
             if isinstance(e, ast.Call) and isinstance(e.func, ast.Attribute) and e.func.attr in ("items", "keys", "values") and not e.args and _const_dict(e.func.value):
                 d = e.func.value
                 if e.func.attr == "keys":
@@ -404,6 +423,31 @@ class Explorer:
         if isinstance(n, ast.SetComp):
             return None
         return ast.Tuple(elts=vals, ctx=ast.Load())
+
+    def _simplify_call(self, n: ast.Call) -> ast.AST:
+        """getattr(x, "name") -> x.name;  list(<literal>) / tuple(<literal>) -> literal"""
+        if isinstance(n.func, ast.Name) and n.func.id == "getattr" and len(n.args) == 2 and not n.keywords and isinstance(n.args[1], ast.Constant) and isinstance(n.args[1].value, str) and n.args[1].value.isidentifier():
+            return ast.Attribute(value=n.args[0], attr=n.args[1].value, ctx=ast.Load())
+        if isinstance(n.func, ast.Name) and n.func.id in ("list", "tuple") and len(n.args) == 1 and not n.keywords and isinstance(n.args[0], (ast.List, ast.Tuple)) and not any(isinstance(x, ast.Starred) for x in n.args[0].elts):
+            elts = list(n.args[0].elts)
+            return ast.List(elts=elts, ctx=ast.Load()) if n.func.id == "list" else ast.Tuple(elts=elts, ctx=ast.Load())
+        if isinstance(n.func, ast.Name) and n.func.id in ("list", "tuple") and len(n.args) == 1 and not n.keywords and isinstance(n.args[0], (ast.Name, ast.Subscript)) and self._stack:
+            items = self.literal_items(n.args[0], self._stack[-1])  # a module-level literal tuple
+            if items is not None and all(isinstance(x, ast.Constant) for x in items):
+                return ast.List(elts=list(items), ctx=ast.Load()) if n.func.id == "list" else ast.Tuple(elts=list(items), ctx=ast.Load())
+        return n
+
+    @staticmethod
+    def _simplify_fstring(n: ast.JoinedStr) -> ast.AST:
+        parts = []
+        for v in n.values:
+            if isinstance(v, ast.Constant):
+                parts.append(str(v.value))
+            elif isinstance(v, ast.FormattedValue) and v.format_spec is None and v.conversion == -1 and isinstance(v.value, ast.Constant) and isinstance(v.value.value, str):
+                parts.append(v.value.value)
+            else:
+                return n
+        return ast.Constant(value="".join(parts))
 
     def _simplify(self, n: ast.AST) -> ast.AST:
         """local rewrites on freshly substituted nodes: {k: v}[k] -> v, C(f=v).f -> v for dataclasses"""
@@ -691,6 +735,18 @@ class Explorer:
                 if len(funcs) == 1 and funcs[0] not in self._stack and funcs[0] is not fi and self.inline(fi, c, funcs[0]):
                     targets = funcs[0]
             csub = self.subst(c, self._in_comprehension(c, st, fi, depth))
+            if isinstance(c.func, ast.Attribute) and isinstance(c.func.value, ast.Name) and c.func.attr in ("append", "extend") and len(c.args) == 1 and not c.keywords and not self._comp_of.get(id(c)):
+                cur = st.store.get(c.func.value.id)
+                if isinstance(cur, ast.List) and not any(isinstance(x, ast.Starred) for x in cur.elts):
+                    arg = csub.args[0]
+                    if c.func.attr == "append":
+                        st.store[c.func.value.id] = ast.List(elts=[*cur.elts, arg], ctx=ast.Load())
+                    else:
+                        items = self.literal_items(arg, fi)
+                        if items is not None:
+                            st.store[c.func.value.id] = ast.List(elts=[*cur.elts, *items], ctx=ast.Load())
+                        else:
+                            st.store[c.func.value.id] = ast.List(elts=[*cur.elts, ast.Starred(value=arg, ctx=ast.Load())], ctx=ast.Load())
             if self.call_value is not None:
                 try:
                     fs = self.prog.resolve_call(fi, c).funcs()
